@@ -2120,6 +2120,9 @@ func (pb *PositionedBlock) writeRLEs(indices map[uint32]struct{}, op *OutputOp, 
 					}
 					bitpos += bits
 				}
+				if vx+dx-1 > maxPt[0] {
+					dx = maxPt[0] - vx + 1 // a single-label sub-block step must not run past the bounds
+				}
 				if foreground {
 					if inRun {
 						rle.Extend(dx)
